@@ -2,6 +2,10 @@ package checks
 
 import (
 	"fmt"
+	"go/ast"
+	"go/token"
+	"go/types"
+	"golang.org/x/tools/go/packages"
 	"os/exec"
 	"path/filepath"
 	"strings"
@@ -63,6 +67,7 @@ func checkC03(r *core.Result) {
 		return "Decoder.p is stored (or its address taken) at " + prog.Pos(stores[0]) + "; len(d.p) is then not constant and the invariant argument does not hold"
 	}())
 	verifyPureRanges(r, prog)
+	r.Floor("uint64 → int conversions of lengths in decoder.go", checkLengthConversions(r, prog, root), 3)
 
 	var funcs []*core.FuncInfo
 	for _, f := range core.Funcs(root, "decoder.go") {
@@ -133,4 +138,63 @@ func bceCrossCheck(r *core.Result, pkgPattern, file string, lines map[int]bool) 
 	}
 	r.Counts["compiler-unproven bounds checks in "+file] = n
 	r.Ob("BCE-cross", "every compiler-unproven bounds check in "+file+" is an enumerated obligation site", file, len(missed) == 0 && n > 0, "sites not enumerated by the engine: "+strings.Join(firstN(missed, 5), "; "))
+}
+
+// checkLengthConversions (O-conv): the engine treats int(x) as x ("int is 64 bits, sums cannot wrap" is a stated
+// assumption) - which is only right when x fits. A uint64 taken from the input is converted to int (to be used as a
+// length or an offset) only where an upper bound `x <= C` / `x < C` has been established on every path (the 2 GB cap
+// of the length-delimited readers): otherwise a length of 2^63 or more becomes negative, passes `offset+n > len(p)`
+// and is accepted as an empty item.
+func checkLengthConversions(r *core.Result, prog *core.Program, root *packages.Package) int {
+	info := root.TypesInfo
+	n := 0
+	for _, f := range funcsOfFiles(root, "decoder.go") {
+		if f.Decl == nil || f.Decl.Body == nil {
+			continue
+		}
+		parents := parentMap(f.Decl.Body)
+		keyer := &obKeyer{}
+		ast.Inspect(f.Decl.Body, func(nn ast.Node) bool {
+			c, ok := nn.(*ast.CallExpr)
+			if !ok || len(c.Args) != 1 {
+				return true
+			}
+			tv, ok := info.Types[c.Fun]
+			if !ok || !tv.IsType() {
+				return true
+			}
+			if b, ok := tv.Type.Underlying().(*types.Basic); !ok || b.Kind() != types.Int {
+				return true
+			}
+			id, ok := ast.Unparen(c.Args[0]).(*ast.Ident)
+			if !ok {
+				return true
+			}
+			obj := info.Uses[id]
+			if bt, ok := info.TypeOf(id).Underlying().(*types.Basic); !ok || (bt.Kind() != types.Uint64 && bt.Kind() != types.Uint) || obj == nil {
+				return true
+			}
+			n++
+			isX := func(e ast.Expr) bool {
+				x, ok := ast.Unparen(e).(*ast.Ident)
+				return ok && info.Uses[x] == obj
+			}
+			isConst := func(e ast.Expr) bool {
+				t, ok := info.Types[e]
+				return ok && t.Value != nil
+			}
+			upper := func(e ast.Expr) bool { // x <= C, x < C
+				b, ok := e.(*ast.BinaryExpr)
+				return ok && (b.Op == token.LEQ || b.Op == token.LSS) && isX(b.X) && isConst(b.Y)
+			}
+			notUpper := func(e ast.Expr) bool { // x > C, x >= C
+				b, ok := e.(*ast.BinaryExpr)
+				return ok && (b.Op == token.GTR || b.Op == token.GEQ) && isX(b.X) && isConst(b.Y)
+			}
+			r.Ob("O-conv", keyer.key(f.Name, "int("+id.Name+")"), prog.Pos(c.Pos()), dominatedBy2(parents, c, upper, notUpper),
+				"a uint64 taken from the input is converted to int without an upper bound having been checked first: a value of 2^63 or more becomes a negative length, passes the `offset + n > len(p)` test and is accepted as an empty item (or panics in make)")
+			return true
+		})
+	}
+	return n
 }
